@@ -7,3 +7,10 @@
 fn walk_methods_order<'a>(ast: &'a ast::Aidl) -> (r: Vec<&'a ast::Method>)
     ensures r@.len() == methods_of(*ast).len(), forall |k: int| 0 <= k < r@.len() ==> *#[trigger] r@[k] == methods_of(*ast)[k]
 { unimplemented!() }
+
+// walk_types(ast, f) calls f exactly once on every type node of the file, at any depth, in source order
+// (an array's element type before the array), and does nothing else
+#[verifier::external_body]
+fn walk_types_order<'a>(ast: &'a ast::Aidl) -> (r: Vec<&'a ast::Type>)
+    ensures r@.len() == types_of(*ast).len(), forall |k: int| 0 <= k < r@.len() ==> *#[trigger] r@[k] == types_of(*ast)[k]
+{ unimplemented!() }
